@@ -182,6 +182,10 @@ func pureApps(text string) []string {
 }
 
 func getValues(o *Obligation, terms []string, wd string) (map[string]string, error) {
+	return getValuesT(o, terms, wd, 20)
+}
+
+func getValuesT(o *Obligation, terms []string, wd string, timeoutS int) (map[string]string, error) {
 	f := filepath.Join(wd, "getvalue.smt2")
 	text := smtText(o, true)
 	text = strings.Replace(text, "(check-sat)\n(get-model)\n", "", 1)
@@ -192,11 +196,11 @@ func getValues(o *Obligation, terms []string, wd string) (map[string]string, err
 		b.WriteString("(get-value (" + t + "))\n")
 	}
 	os.WriteFile(f, []byte(b.String()), 0o644)
-	out, _ := exec.Command("z3-new", "-smt2", "-T:20", f).CombinedOutput()
+	out, _ := exec.Command("z3-new", "-smt2", fmt.Sprintf("-T:%d", timeoutS), f).CombinedOutput()
 	lines := strings.Split(string(out), "\n")
 	if len(lines) == 0 || strings.TrimSpace(lines[0]) != "sat" {
 		// try the solver that found the model
-		out, _ = exec.Command("cvc5", "--lang=smt2", "--produce-models", "--tlimit=20000", f).CombinedOutput()
+		out, _ = exec.Command("cvc5", "--lang=smt2", "--produce-models", fmt.Sprintf("--tlimit=%d", timeoutS*1000), f).CombinedOutput()
 		lines = strings.Split(string(out), "\n")
 		if len(lines) == 0 || strings.TrimSpace(lines[0]) != "sat" {
 			return nil, fmt.Errorf("model not reproducible for get-value: %s", truncate(string(out), 200))
@@ -442,7 +446,31 @@ func attemptReplay(p *Prog, prop string, o *Obligation) ReplayResult {
 	}
 	apps := pureApps(strings.Join(o.PC, "\n") + o.Goal)
 	terms = append(terms, apps...)
-	vals, err := getValues(o, terms, wd)
+	var vals map[string]string
+	// err declared above
+	if o.Kind == "conform" {
+		// conformance sampling prefers moderate magnitudes: at 1e17 float64 rounding (A1, outside the
+		// model by assumption) decides comparisons and the real run legitimately takes another path
+		q := *o
+		q.PC = append([]string(nil), o.PC...)
+		for _, c := range cells {
+			switch c.Kind {
+			case "int":
+				q.PC = append(q.PC, "(and (<= (- 1048576) "+c.Pre+") (<= "+c.Pre+" 1048576))")
+			case "float":
+				q.PC = append(q.PC, "(=> (isfin "+c.Pre+") (and (<= (- 1048576.0) (fv "+c.Pre+")) (<= (fv "+c.Pre+") 1048576.0)))")
+			}
+		}
+		for _, prm := range fn.Params[1:] {
+			if v, ok := o.Inputs[prm.Name()]; ok && len(v.L) == 1 && isInteger(prm.Type()) {
+				q.PC = append(q.PC, "(and (<= (- 1048576) "+v.L[0]+") (<= "+v.L[0]+" 1048576))")
+			}
+		}
+		vals, err = getValuesT(&q, terms, wd, 2)
+	}
+	if vals == nil {
+		vals, err = getValues(o, terms, wd)
+	}
 	if err != nil {
 		res.Reason = err.Error()
 		return res
